@@ -241,7 +241,17 @@ class ThreadWorker(base.Worker):
         for s in self.sockets:
             s.close()
 
-        futures.wait(self.futures, timeout=self.cfg.graceful_timeout)
+        # wait for the requests in flight, and keep telling the arbiter
+        # that we are alive while doing so
+        deadline = time.time() + self.cfg.graceful_timeout
+        while self.futures:
+            remaining = deadline - time.time()
+            if remaining <= 0:
+                break
+            self.notify()
+            result = futures.wait(self.futures, timeout=min(1.0, remaining))
+            for fut in result.done:
+                self.futures.remove(fut)
 
     def finish_request(self, fs):
         if fs.cancelled():
